@@ -289,7 +289,9 @@ impl Lexer {
                 self.in_roots = false
             }
             Some(Lexem::RawString(ref s)) if s.eq_ignore_ascii_case("group") => {
-                self.in_roots = false
+                self.in_roots = false;
+                // the keys of GROUP BY are expressions like those of ORDER BY
+                self.after_order = true;
             }
             _ => {}
         }
@@ -314,7 +316,7 @@ impl Lexer {
     }
 
     fn is_op_char(&self, c: char) -> bool {
-        if !self.before_from && !self.after_where {
+        if !self.before_from && !self.after_where && !self.after_order {
             return false;
         }
 
